@@ -69,10 +69,13 @@ class TapeRecorder(object):
         """
         assert self._active_recording is None, 'Cannot start recording while another recording is already running'
 
-        self._active_recording = self.tape_cassette.create_new_recording(category)
+        # The new recording may be discarded by another thread right away (an interception of a thread that outlives the
+        # previous operation), hence it is not read back from the recorder state
+        recording = self.tape_cassette.create_new_recording(category)
+        self._active_recording = recording
         self._active_recording_parameters = self._classes_recording_params.get(
             metadata[TapeRecorder.OPERATION_CLASS], RecordingParameters())
-        _logger.info(u'Starting recording for category {} with id {}'.format(category, self._active_recording.id))
+        _logger.info(u'Starting recording for category {} with id {}'.format(category, recording.id))
         start_time = time()
         try:
             yield
